@@ -1,10 +1,74 @@
 import Pendulum.Drv.Util
-/-! request handler for property C17 (stub until the property is built) -/
+import Pendulum.Model.ParseAll
+/-! request handler for property C17:
+`ptotal <rs|py> <exact><strict><day_first><year_first>:<tz seconds|none> <encoded string> <dateutil>`
+where `<dateutil>` is what `dateutil.parser.parse` answers for that string and those flags (computed by the harness, the
+model treats dateutil as a parameter): `-` (not consulted: strict), `ok:y:m:d:h:mi:s:us:<off|none>` or `err:<ExceptionName>`.
+Reply: `ok DateTime y m d h mi s us off` | `ok Date y m d` | `ok Time h mi s us` | `ok Duration years months us` |
+`ok Interval <8 ints> <8 ints>` | `ok IntervalD y m d y m d` | `ok DateTime now` | `err ParserError|ValueError|Other:<Name>`. -/
 namespace Pendulum.Drv.C17
-open Pendulum Pendulum.Drv
+open Pendulum Pendulum.Drv Pendulum.Iso Pendulum.ParseAll
+
+def backend? : String → Option Backend
+  | "rs" => some .rust
+  | "py" => some .py
+  | _ => none
+
+def showOff (o : Option Int) : String :=
+  match o with
+  | none => "none"
+  | some v => toString v
+
+def dtWords (v : Value) : String := s!"{v.y} {v.m} {v.d} {v.h} {v.mi} {v.s} {v.us} {showOff v.off}"
+
+def showOut : Except Kind Out → String
+  | .ok (.dateTime v) => "ok DateTime " ++ dtWords v
+  | .ok (.date v) => s!"ok Date {v.y} {v.m} {v.d}"
+  | .ok (.time v) => s!"ok Time {v.h} {v.mi} {v.s} {v.us}"
+  | .ok (.duration d) => s!"ok Duration {d.years} {d.months} {d.us}"
+  | .ok (.interval s e) =>
+    if s.kind = .date then s!"ok IntervalD {s.y} {s.m} {s.d} {e.y} {e.m} {e.d}"
+    else "ok Interval " ++ dtWords s ++ " " ++ dtWords e
+  | .ok .now => "ok DateTime now"
+  | .error .parserError => "err ParserError"
+  | .error .valueError => "err ValueError"
+  | .error (.other n) => "err Other:" ++ n
+
+def flag (c : Char) : Bool := c == '1'
+
+def parseOpts (w : String) : Option Options :=
+  match w.splitOn ":" with
+  | [fl, tz] =>
+    match fl.toList with
+    | [e, s, d, y] =>
+      let tzv : Option (Option Int) := if tz == "none" then some none else tz.toInt?.map some
+      tzv.map fun t => { exact := flag e, strict := flag s, dayFirst := flag d, yearFirst := flag y, tz := t, now := (2001, 2, 3) }
+    | _ => none
+  | _ => none
+
+def kindOf (n : String) : Kind :=
+  if n == "ParserError" then .parserError else if n == "ValueError" then .valueError else .other n
+
+def parseDu (w : String) : Option Dateutil :=
+  if w == "-" then some (fun _ _ _ => .error (.other "NotConsulted")) else
+  match w.splitOn ":" with
+  | ["err", n] => some (fun _ _ _ => .error (kindOf n))
+  | ["ok", y, m, d, h, mi, s, us, off] => do
+    let xs ← ints [y, m, d, h, mi, s, us]
+    let o : Option Int ← if off == "none" then some none else off.toInt?.map some
+    match xs with
+    | [y, m, d, h, mi, s, us] => some (fun _ _ _ => .ok ⟨.datetime, y, m, d, h, mi, s, us, o⟩)
+    | _ => none
+  | _ => none
 
 def handle (_zs : Zones) (ws : List String) : Option String :=
   match ws with
+  | ["ptotal", b, opts, s, du] => do
+    let b ← backend? b
+    let o ← parseOpts opts
+    let s ← decStr s
+    let du ← parseDu du
+    some (showOut (parseAll b o du s.toList))
   | _ => none
 
 end Pendulum.Drv.C17
